@@ -77,6 +77,10 @@ func decorate(r *rand.Rand, toks []mut.Tok) []mut.Tok {
 				if !prevComment {
 					out = append(out, mut.Tok{Type: lexer.COMMENT, Text: "//tight"})
 				}
+			case 3, 4: // a comment followed by trailing blanks / tabs (on every kind of line, also while / else / end)
+				if !prevComment {
+					out = append(out, mut.Tok{Type: lexer.COMMENT, Text: " // t" + fmt.Sprint(r.Intn(100)) + []string{" ", "  ", "\t", " \t "}[r.Intn(4)]})
+				}
 			}
 			out = append(out, t)
 			switch r.Intn(14) {
